@@ -264,5 +264,117 @@ def csvpath_next():
     )
 
 
+# ----------------------------------------------------------------------------------------------- CsvPath._consider_line
+CF["CsvPath"].update({"rows_time": "real", "last_row_time": "real", "g_fired_stop": "bool", "g_early_count": "bool"})
+CF["ReturnMode"] = {"_return_mode": "bool"}
+CF["Scanner"] = {"from_line": "optint", "to_line": "optint", "all_lines": "bool", "these": "list[int]", "csvpath": "obj"}
+
+P_CSVPATH_MATCHES = ("def patch(self, line):\n    self.g_matches_calls += 1\n    if self.g_fired_stop:\n        self.stopped = True\n"
+                     "    if self.g_early_count:\n        self.raise_match_count_if()\n    return self.g_line_matches\n")
+
+CL_MACROS = dict(MACROS)
+CL_MACROS.update({
+    "pln": ([], "self._line_monitor._physical_line_number"),
+    "blank_last": ([], "self._line_monitor._physical_end_line_number == self._line_monitor._physical_line_number and len(line) == 0"),
+    "denoted": ([], "(self.scanner.all_lines and (self.scanner.from_line is None or pln() >= self.scanner.from_line)) or "
+                    "(not self.scanner.all_lines and self.scanner.from_line is not None and self.scanner.to_line is not None and "
+                    " (self.scanner.from_line if self.scanner.from_line <= self.scanner.to_line else self.scanner.to_line) <= pln() and "
+                    " pln() <= (self.scanner.from_line if self.scanner.from_line >= self.scanner.to_line else self.scanner.to_line)) or "
+                    "(not self.scanner.all_lines and self.scanner.from_line is None and self.scanner.to_line is None and pln() in self.scanner.these)"),
+    "offered": ([], "not blank_last() and not (self.skip_blank_lines and len(line) == 0) and denoted()"),
+    "cwnm": ([], "self.modes.return_mode._return_mode is True"),
+})
+
+
+def consider_line_interfaces():
+    return [Contract(
+        target=f"{CP}::CsvPath.matches", interface=True, variant="as_seen_by_consider_line", types={"line": "list[str]"},
+        modifies=["self.g_matches_calls", "self.stopped", "self._is_valid", "self.match_count", "self._advance"],
+        ensures={"verdict": "same(result, self.g_line_matches)", "counted": "self.g_matches_calls == old(self.g_matches_calls) + 1",
+                 "stop": "self.stopped == (old(self.stopped) or self.g_fired_stop)",
+                 "valid_monotone": "implies(self._is_valid, old(self._is_valid))",
+                 "early_count": "self.match_count == (old(self.match_count) + 1 if (self.g_early_count and old(self._current_match_count) == old(self.match_count)) else old(self.match_count))",
+                 "advance_only_grows": "self._advance >= old(self._advance)"},
+        returns="optbool", class_fields=CF, native={"callee_default": True},
+        assumptions=["CsvPath.matches(line) returns the matcher's verdict for the line; while matching, an onmatch look-ahead may raise the "
+                     "match count early (through raise_match_count_if only), stop()/fail()/advance() may fire"])]
+
+
+def raise_match_count_if():
+    return Contract(
+        target=f"{CP}::CsvPath.raise_match_count_if", types={},
+        modifies=["self.match_count"],
+        ensures={"once": "self.match_count == (old(self.match_count) + 1 if old(self._current_match_count) == old(self.match_count) else old(self.match_count))"},
+        class_fields=CF, macros=MACROS, returns="none",
+        property_clauses={"once": "C03"},
+        doc={"once": "C03: 'match_count the number of lines that matched' -- raised at most once per line, however many callers ask"})
+
+
+def consider_line():
+    from . import C02
+    return Contract(
+        target=f"{CP}::CsvPath._consider_line",
+        types={"line": "list[str]", "self.scanner": "obj:Scanner", "self._line_monitor": "obj:LineMonitor", "self.scanner.csvpath": "obj",
+               "self.scanner.csvpath.line_monitor": "obj", "self.scanner.csvpath.line_monitor.physical_end_line_number": "optint"},
+        requires=["self._line_monitor._physical_line_number is not None and self._line_monitor._physical_line_number >= 0",
+                  "self._advance >= 0", "self.scan_count >= 0",
+                  # the scanner state is one of the shapes a parse leaves (C02 lemma)
+                  "(self.scanner.from_line is None or self.scanner.from_line >= 0) and (self.scanner.to_line is None or self.scanner.to_line >= 0) and ("
+                  "(self.scanner.all_lines and self.scanner.to_line is None and len(self.scanner.these) == 0) or "
+                  "(not self.scanner.all_lines and self.scanner.from_line is not None and self.scanner.to_line is not None and len(self.scanner.these) == 0) or "
+                  "(not self.scanner.all_lines and self.scanner.from_line is None and self.scanner.to_line is None))"],
+        modifies=["self.scan_count", "self.match_count", "self._current_match_count", "self._advance", "self.stopped", "self._is_valid",
+                  "self._freeze_path", "self.g_matches_calls", "self.last_row_time", "self.rows_time"],
+        ensures={
+            # ---- C02
+            "offers_exactly_the_denoted_nonblank_lines": "self.scan_count == old(self.scan_count) + (1 if offered() else 0)",
+            "no_match_attempt_on_other_lines": "implies(not offered() and not blank_last(), result == False and self.g_matches_calls == old(self.g_matches_calls) "
+                                               "and self.match_count == old(self.match_count) and self.stopped == old(self.stopped))",
+            "stops_after_last_denoted_line": "implies(offered() and not self.scanner.all_lines and ("
+                                             "(self.scanner.to_line is not None and pln() == (self.scanner.from_line if self.scanner.from_line >= self.scanner.to_line else self.scanner.to_line)) or "
+                                             "(self.scanner.to_line is None and len(self.scanner.these) > 0 and pln() == max(self.scanner.these))), self.stopped)",
+            # ---- C13
+            "advancing_line_has_no_effect": "implies(offered() and old(self._advance) > 0, self._advance == old(self._advance) - 1 and "
+                                            "self.g_matches_calls == old(self.g_matches_calls) and self.match_count == old(self.match_count) and result == cwnm())",
+            "blank_last_line_fires_lasts_only": "implies(blank_last(), result == False and self._freeze_path == True and "
+                                                "self.g_matches_calls == old(self.g_matches_calls) + 1 and self.scan_count == old(self.scan_count))",
+            # ---- C01 / C15
+            "verdict": "implies(offered() and old(self._advance) == 0, result == ((self.g_line_matches is True) != cwnm()) and "
+                       "self.g_matches_calls == old(self.g_matches_calls) + 1)",
+            "result_is_bool": "result is True or result is False",
+            # ---- C03
+            "match_count_exactly_once_per_matching_line": "implies(offered() and old(self._advance) == 0 and self.g_line_matches is True, "
+                                                          "self.match_count == old(self.match_count) + 1)",
+            "match_count_not_raised_here_otherwise": "implies(offered() and old(self._advance) == 0 and not (self.g_line_matches is True) and not self.g_early_count, "
+                                                     "self.match_count == old(self.match_count))",
+            # ---- C04
+            "validity_monotone": "implies(self._is_valid, old(self._is_valid))",
+        },
+        covers={"offered_line_zero": "offered() and pln() == 0 and result == True",
+                "inverted": "cwnm() and result == True and not (self.g_line_matches is True)",
+                "advanced": "old(self._advance) == 2 and self._advance == 1"},
+        inline=["CsvPath.line_monitor", "LineMonitor.is_last_line_and_blank", "LineMonitor.physical_line_number", "CsvPath.advance_count",
+                "CsvPath.advance_count.setter", "CsvPath.collect_when_not_matched", "ReturnMode.collect_when_not_matched", "ReturnMode.value",
+                "CsvPath.stop"],
+        macros={**C02.MACROS, **CL_MACROS}, class_fields=CF, returns="bool",
+        native={"patches": {"csvpath.csvpath.CsvPath.matches": P_CSVPATH_MATCHES},
+                "defaults": {"Scanner": {"csvpath": None}, "CsvPath": {"metadata": {}}}},
+        property_clauses={"offers_exactly_the_denoted_nonblank_lines": "C02,C03", "no_match_attempt_on_other_lines": "C02",
+                          "stops_after_last_denoted_line": "C02", "advancing_line_has_no_effect": "C13", "blank_last_line_fires_lasts_only": "C13",
+                          "verdict": "C01,C15", "result_is_bool": "C01", "match_count_exactly_once_per_matching_line": "C03",
+                          "match_count_not_raised_here_otherwise": "C03", "validity_monotone": "C04"},
+        doc={"offers_exactly_the_denoted_nonblank_lines": "C02: 'The lines offered to the match part are exactly those the scan part denotes ... blank records are never offered'; C03: 'scan_count equals the number of lines offered'",
+             "advancing_line_has_no_effect": "C13: 'advance(n) makes the next n scanned lines pass without matching, counting as matches or causing any side effect'",
+             "blank_last_line_fires_lasts_only": "C13: 'last() ... still fires, without returning a line, when the file ends in a blank line'",
+             "verdict": "C01 / C15: 'return-mode no-matches returns exactly the scanned lines that the default mode does not'",
+             "match_count_exactly_once_per_matching_line": "C03: 'match_count the number of lines that matched'"},
+    )
+
+
 def contracts():
-    return [matcher_matches(), csvpath_next()] + interface_contracts() + next_interfaces()
+    from . import C02
+    c02 = [c for c in C02.contracts() if c.ident in ("Scanner.includes", "Scanner.is_last")]
+    for c in c02:
+        c._foreign = True
+    return ([matcher_matches(), csvpath_next(), consider_line(), raise_match_count_if()] + interface_contracts() + next_interfaces()
+            + consider_line_interfaces() + c02)
